@@ -123,6 +123,24 @@ func c18Board(r *kit.Run, rec *world.Recording, tier string, classes map[string]
 					mm.Signature = ed25519.Sign(priv, mm.Bytes())
 					muts = append(muts, mutant{Label: pathClass(m.Path) + "/" + m.Kind, Msg: mm})
 				}
+				if tier == "thorough" {
+					// pairs of mutations at two different positions (a small kind set)
+					small := map[string]bool{"delete": true, "null": true, "minus-one": true, "int63": true, "empty-array": true, "empty-string": true, "as-string": true, "with-null-element": true, "as-object": true}
+					for _, m1 := range mut.Mutants(g.Data, 0) {
+						if !small[m1.Kind] {
+							continue
+						}
+						for _, m2 := range mut.Mutants(m1.Doc, 0) {
+							if !small[m2.Kind] || m2.Path == m1.Path || m2.Path == "" || m1.Path == "" {
+								continue
+							}
+							mm := g
+							mm.Data = m2.Doc
+							mm.Signature = ed25519.Sign(priv, mm.Bytes())
+							muts = append(muts, mutant{Label: pathClass(m1.Path) + "/" + m1.Kind + "+" + pathClass(m2.Path) + "/" + m2.Kind, Msg: mm})
+						}
+					}
+				}
 				for _, ev := range []string{"", "event_unknown", string(types.ReinitDKG), string(sif.EventSigningRestart)} {
 					mm := g
 					mm.Event = ev
